@@ -163,3 +163,69 @@ Theorem C15_fgmres_converged_guess (S : Scalar) (A P : vec S -> vec S) prm f x0 
   exists res, fst (fgmres A P prm f x0 junk) = KOk (mkRes 0 res x0 false).
 Proof. exact (fgmres_converged_guess A P prm f x0 junk nr). Qed.
 Print Assumptions C15_fgmres_converged_guess.
+
+(* =====================================================================================
+   BiCGStab(L), IDR(s), LGMRES (proofs: KrylovProofs2*.v) *)
+From Amgcl Require Import KrylovIdrs KrylovProofs2 KrylovProofs2Bl KrylovProofs2Idrs.
+
+(* ---- A1: junk independence ----
+   BiCGStab(L): Rt, B, R[0] are assigned; R[i], U[i] (i >= 1) are written in BiCG step i-1 before they
+   are read; the polynomial part reads R[0..L] and U[0..L] only (the reads of the Householder QR are
+   proved to stay inside the leading block); T is scratch.  X and U[0] are CLEARED, not assigned, so
+   their allocated length is the one thing the two objects must share ([bl_sized n]). *)
+Theorem C15_bicgstabl_junk_independent (S : Scalar) (A P : vec S -> vec S) prm f x0 n (j1 j2 : bl_ws) :
+  1 <= p_L prm -> bl_sized n j1 -> bl_sized n j2 ->
+  fst (bicgstabl A P prm f x0 j1) = fst (bicgstabl A P prm f x0 j2).
+Proof. exact (bicgstabl_junk_independent A P prm f x0 n j1 j2). Qed.
+Print Assumptions C15_bicgstabl_junk_independent.
+
+(* IDR(s): M is reset to the identity on [0,s)^2, f is recomputed at the start of every pass, c[k..s)
+   at the start of every k step, v and t are overwritten (t through axpbypcz(.., zero, t): needs
+   is_zero(zero) = true), x_s and r_s are copied when smoothing is on; G[i], U[i] are CLEARED:
+   [id_sized n s] = both objects allocated them with length n.  The shadow space Sh is constant
+   object state built by the constructor, the same for both objects. *)
+Theorem C15_idrs_junk_independent (S : Scalar) (A P : vec S -> vec S) Sh prm f x0 n (j1 j2 : id_ws) :
+  is_zero (@s0 S) = true -> id_sized n (ip_s prm) j1 -> id_sized n (ip_s prm) j2 ->
+  fst (idrs A P Sh prm f x0 j1) = fst (idrs A P Sh prm f x0 j2).
+Proof. intro Hz. exact (idrs_junk_independent Hz A P Sh prm f x0 n j1 j2). Qed.
+Print Assumptions C15_idrs_junk_independent.
+
+Theorem C15_idrs_junk_independent_Qc (A P : vec QcS -> vec QcS) Sh prm f x0 n (j1 j2 : id_ws) :
+  id_sized n (ip_s prm) j1 -> id_sized n (ip_s prm) j2 ->
+  fst (idrs A P Sh prm f x0 j1) = fst (idrs A P Sh prm f x0 j2).
+Proof. apply C15_idrs_junk_independent. reflexivity. Qed.
+Print Assumptions C15_idrs_junk_independent_Qc.
+
+(* ---- A2: zero right-hand side ---- *)
+Theorem C15_bicgstabl_zero_rhs (S : Scalar) (A P : vec S -> vec S) prm f x0 junk :
+  sltb (norm_a f) eps1 = true -> p_ns prm = false ->
+  fst (bicgstabl A P prm f x0 junk) = KOk (mkRes 0 (norm_a f) (k_clear x0) false).
+Proof. exact (bicgstabl_zero_rhs A P prm f x0 junk). Qed.
+Theorem C15_idrs_zero_rhs (S : Scalar) (A P : vec S -> vec S) Sh prm f x0 junk :
+  sltb (norm_b f) eps1 = true -> p_ns (ip_k prm) = false ->
+  fst (idrs A P Sh prm f x0 junk) = KOk (mkRes 0 (norm_b f) (k_clear x0) false).
+Proof. exact (idrs_zero_rhs A P Sh prm f x0 junk). Qed.
+Print Assumptions C15_idrs_zero_rhs.
+
+(* ---- A2: converged initial guess ---- *)
+Theorem C15_lgmres_converged_guess (S : Scalar) (A P : vec S -> vec S) prm f x0 st nr :
+  k_prologue norm_b prm f = Go nr ->
+  sltb (true_res norm_b A P (p_left prm) f x0) (smax (p_tol prm * nr) (p_abstol prm)) = true ->
+  exists res, fst (lgmres A P prm f x0 st) = KOk (mkRes 0 res x0 false).
+Proof. exact (lgmres_converged_guess A P prm f x0 st nr). Qed.
+(* IDR(s) has the explicit exit res_norm <= eps (any S) *)
+Theorem C15_idrs_converged_guess (S : Scalar) (A P : vec S -> vec S) Sh prm f x0 junk nr :
+  k_prologue norm_b (ip_k prm) f = Go nr ->
+  sleb (true_res norm_b A P false f x0) (smax (p_tol (ip_k prm) * nr) (p_abstol (ip_k prm))) = true ->
+  fst (idrs A P Sh prm f x0 junk) = KOk (mkRes 0 (true_res norm_b A P false f x0 / nr) x0 false).
+Proof. exact (idrs_converged_guess A P Sh prm f x0 junk nr). Qed.
+(* BiCGStab(L) leaves by the loop guard and then executes x += X (resp. x += P X) with the cleared X:
+   "x unchanged" needs the ring laws (0 + x = x) and, for right preconditioning, P 0 = 0 *)
+Theorem C15_bicgstabl_converged_guess (S : Scalar) (Srt : Sring S) (Seqb : seqb_spec S) n (A P : vec S -> vec S)
+  (P_len : forall v, length v = n -> length (P v) = n) (P_lin : linear_on n P) left prm f x0 junk nr :
+  p_left prm = left -> length f = n -> length x0 = n -> bl_sized n junk ->
+  k_prologue norm_a prm f = Go nr ->
+  sltb (true_res norm_a A P left f x0) (smax (p_tol prm * nr) (p_abstol prm)) = true ->
+  fst (bicgstabl A P prm f x0 junk) = KOk (mkRes 0 (true_res norm_a A P left f x0 / nr) x0 false).
+Proof. exact (bicgstabl_converged_guess Srt Seqb n A P P_len P_lin left prm f x0 junk nr). Qed.
+Print Assumptions C15_bicgstabl_converged_guess.
